@@ -227,6 +227,9 @@ func (m ClientState) RestrictChain(cdc codec.BinaryCodec, store storetypes.KVSto
 		}
 		current = *tmpConsensus
 	}
+	// new is now the lowest header of the new branch (its parent is the common ancestor): it belongs to the
+	// re-written main chain as well, at height ti
+	newHashes = append(newHashes, new.Hash())
 	for i := len(newHashes) - 1; i >= 0; i-- {
 		newTmp := store.Get(EthHeaderIndexKey(newHashes[i], ti.GetRevisionHeight()))
 		if newTmp == nil {
